@@ -98,7 +98,7 @@ func c04History(e *core.Env, r *core.Rand, idx int64) {
 			env.Today = env.Today.Plus(1) // the next day
 			base.Today = env.Today
 		}
-		cmd := genCommand(r, model, env, !viaBin)
+		cmd := genLikelyCommand(r, model, env, !viaBin)
 		out := applyModel(model, cmd, env)
 		before := readFile(file)
 		var res MResult
